@@ -11,6 +11,7 @@ import ShapeVerif.Model.Infer
 import ShapeVerif.Model.Display
 import ShapeVerif.Ref.Sem
 import ShapeVerif.Ref.Rfc8259
+import ShapeVerif.Ref.Witness
 open ShapeVerif
 
 def showBool (b : Bool) : String := if b then "true" else "false"
@@ -88,6 +89,27 @@ def step (line : String) : String :=
       match docOfHex h with
       | none => "not-json"
       | some d => showBool (admits a d)
+  | ["witness", a, b] => withShape a fun a => withShape b fun b =>
+      match findWitness a b with
+      | (some d, _) => "counterexample " ++ hexOfString (renderDoc d)
+      | (none, n) => "ok " ++ toString n
+  | ["wf", a] => withShape a fun a => showBool a.wf
+  | ["superset", a, h] => withShape a fun a =>
+      match docOfHex h with
+      | none => "unmodelled"
+      | some d => match inferDoc d with
+        | .ok s => showBool (isSubset s a)
+        | .error _ => "false"
+  | ["supersetchk", a, h] => withShape a fun a =>
+      match docOfHex h with
+      | none => "unmodelled"
+      | some d => match inferDoc d with
+        | .ok s => "ok " ++ showBool (isSubset s a)
+        | .error e => showInferErr e
+  | "kfclass" :: "d3" :: hs =>
+      match docsOfHex hs with
+      | none => "not-json"
+      | some ds => showBool (ds.any fun d => !conflictFree d)
   | ["rfc", h] =>
       match docOfHex h with
       | none => "reject"
